@@ -267,6 +267,62 @@ def case_kernel_grad(**p):
   return case
 
 
+def case_kernel_grad_simplex(**p):
+  """Lattice with simplex interpolation: d out / d kernel is a convex weight vector (non-negative, sums to one) that does
+  not depend on the kernel, for every input of a box around the lattice (clipped inputs) - cell and order by case split."""
+  import tensorflow as tf
+  from z3 import z3util
+  from tensorflow_lattice.python import lattice_layer as LL, lattice_lib as ll
+  case = Case(PROP, p['name'], {k: v for k, v in p.items() if k != 'name'})
+  case.encoded(LL.Lattice.call, ll.evaluate_with_simplex_interpolation)
+  sizes = list(p['sizes'])
+  layer = LL.Lattice(lattice_sizes=sizes, units=1, interpolation='simplex', clip_inputs=p.get('clip', True))
+  layer.build(tf.TensorShape([None, len(sizes)]))
+  n = int(np.prod(sizes))
+
+  def g(x):
+    with tf.GradientTape() as t:
+      y = tf.reshape(layer(x), [-1])[0]
+    return t.gradient(y, layer.kernel)
+  tr = Traced(g, [tf.TensorSpec([1, len(sizes)], tf.float32)], name='lattice-simplex.kernel_grad')
+  done, mism = tr.validate(np.random.default_rng(0), n=2, gen=lambda rng, i, shp, t: rng.integers(1, 15, size=shp) / 8.0 + 0.03125,
+                           var_shapes={layer.kernel.name: lambda r, t: core.dyadic(r, [n, 1], t)})
+  case.meta.update(validation_points=done, validation_mismatch=mism)
+  lo, hi = (-1, 1) if p.get('clip', True) else (0, 0)
+
+  def rp(m, x, K):
+    xn = core.model_np(m, x)
+    gr = np.asarray(tr.tf_run(xn, var_values={layer.kernel.ref(): core.model_np(m, K)})[0], dtype=np.float64).reshape(-1)
+    bad = bool(np.min(gr) < -1e-5 or abs(float(np.sum(gr)) - 1.0) > 1e-5)
+    return dict(reproduced=bad, detail=dict(x=xn.tolist(), kernel_gradient=gr.tolist()))
+
+  def build(extra, leaf):
+    c = sym.new_ctx()
+    x = sym.symbolic('x', (1, len(sizes)))
+    K = sym.symbolic('k', (n, 1))
+    box = [z3.And(x[0, d] >= lo, x[0, d] <= sizes[d] - 1 + hi) for d in range(len(sizes))]
+    # differentiable points only: not on a cell boundary, no ties between residuals (measure-zero set excluded)
+    c.case_assumptions = box + list(extra)
+    (grads,) = tr.sym_run(x, var_values={layer.kernel.ref(): K})
+    case.meta['ops'] = tr.ops_seen
+    tag = '[leaf=%s]' % (leaf or 'root')
+    knames = set(str(v) for v in K.reshape(-1))
+    occurs = any(sym.is_z(gv) and any(str(v) in knames for v in z3util.get_vars(gv)) for gv in grads.reshape(-1))
+    case.record('kernel-gradient-independent-of-kernel' + tag, 'sat' if occurs else 'unsat', kind='structural', witness={}, replay=None,
+                sig=dict(query='independent', layer='lattice-simplex'))
+    tot = 0
+    bad = []
+    for gv in grads.reshape(-1):
+      tot = sym.s_add(tot, gv)
+      bad.append(sym.s_cmp('lt', gv, 0))
+    bad.append(sym.NE(tot, 1))
+    case.solve('kernel-gradient-is-a-convex-weight-vector' + tag, core.any_of(bad), witness=dict(x=x, k=K), timeout=p.get('timeout', 60),
+               sig=dict(query='kernel-grad', layer='lattice-simplex'), inline_replay=lambda m, x=x, K=K: rp(m, x, K),
+               required=p.get('required', True))
+  core.split_run(build, budget=[p.get('budget', 120)])
+  return case
+
+
 def _kgrad_replay(m, tr, x, K, layer, kind, u0, kshape, p):
   xn = core.model_np(m, x) if kind != 'categorical' else np.asarray(x, dtype=object).astype(np.int64)
   grads, W = tr.tf_run(xn, var_values={layer.kernel.ref(): core.model_np(m, K)})
@@ -356,6 +412,8 @@ def cases(tier, seed):
   add('case_kernel_grad', layer='lattice', sizes=[2, 2], units=1)
   add('case_kernel_grad', layer='lattice', sizes=[3, 2], units=2, unit=1)
   add('case_kernel_grad', layer='lattice', sizes=[2, 2, 2], units=1)
+  add('case_kernel_grad_simplex', sizes=[3, 2])
+  add('case_kernel_grad_simplex', sizes=[2, 2], clip=False)
   add('case_kernel_grad', layer='pwl', nk=3, units=1)
   add('case_kernel_grad', layer='pwl', nk=4, units=2, unit=1)
   add('case_kernel_grad', layer='categorical', buckets=3, units=2, unit=1)
